@@ -31,10 +31,13 @@ type c18Scenario struct {
 	Shutdown int
 	// InnerErr allows the inner Accept to fail (environment deviation).
 	InnerErr bool
+	// Racer adds a task that closes the first connection concurrently with
+	// the closer task.
+	Racer bool
 }
 
 func (sc c18Scenario) String() string {
-	return fmt.Sprintf("stop=%d resume=%d accepts=%v closes=%d shutdown=%d innererr=%v", sc.Stop, sc.Resume, sc.Accepts, sc.Closes, sc.Shutdown, sc.InnerErr)
+	return fmt.Sprintf("stop=%d resume=%d accepts=%v closes=%d shutdown=%d innererr=%v racer=%v", sc.Stop, sc.Resume, sc.Accepts, sc.Closes, sc.Shutdown, sc.InnerErr, sc.Racer)
 }
 
 type c18Conn struct {
@@ -111,6 +114,8 @@ type c18Env struct {
 	parked   map[int]int // task id -> listener idx while inside Accept
 	results  []string
 	findings []vrt.Finding
+	racerOK  bool
+	firstOK  int
 
 	// refAccepting is the hysteresis state derived from the history of the
 	// limiter's own count, observed at every scheduling point.
@@ -168,7 +173,10 @@ func c18Setup(sc c18Scenario, s *xsched.Sched) (env *c18Env) {
 				s.Point("wait for a connection", func() bool { return len(env.handed) > k })
 				c := env.handed[k]
 				cerr := c.Close()
-				if cerr != nil {
+				if cerr == nil && k == 0 {
+					env.firstOK++
+				}
+				if cerr != nil && !(sc.Racer && k == 0 && errors.Is(cerr, net.ErrClosed)) {
 					env.viol("connlimiter/first-close-failed", "first Close of connection %d returned %v", k, cerr)
 				}
 				if k == 0 {
@@ -177,6 +185,16 @@ func c18Setup(sc c18Scenario, s *xsched.Sched) (env *c18Env) {
 						env.viol("connlimiter/double-close-not-rejected", "second Close returned %v, want net.ErrClosed", cerr)
 					}
 				}
+			}
+		})
+	}
+	if sc.Racer {
+		s.Go("C2", func() {
+			s.Point("wait for the first connection", func() bool { return len(env.handed) > 0 })
+			cerr := env.handed[0].Close()
+			env.racerOK = cerr == nil
+			if cerr != nil && !errors.Is(cerr, net.ErrClosed) {
+				env.viol("connlimiter/close-error", "concurrent Close returned %v", cerr)
 			}
 		})
 	}
@@ -235,6 +253,15 @@ func c18Final(env *c18Env, x *xsched.Exec) (fs []vrt.Finding) {
 		return append(fs, vrt.F("connlimiter/livelock", "step limit hit")...)
 	}
 	c := env.lim.counter
+	if env.sc.Racer && len(env.handed) > 0 && !x.Sched.Deadlock {
+		n := env.firstOK
+		if env.racerOK {
+			n++
+		}
+		if n != 1 {
+			fs = append(fs, vrt.F("connlimiter/concurrent-close-not-exactly-once", "two tasks closed the same connection concurrently and %d of the Close calls succeeded; exactly one must", n)...)
+		}
+	}
 	if int(c.current) != env.open {
 		fs = append(fs, vrt.F("connlimiter/count-drift", "at quiescence the limiter counts %d connections but %d are open or pending (a release was lost or doubled)", c.current, env.open)...)
 	}
@@ -265,6 +292,7 @@ func c18Scenarios(thorough bool) (out []c18Scenario) {
 				c18Scenario{Stop: stop, Resume: resume, Accepts: [][]int{{0, 0}, {1}, {1}}, Closes: 2, Shutdown: -1},
 				c18Scenario{Stop: stop, Resume: resume, Accepts: [][]int{{0, 0}, {1, 1}}, Closes: 1, Shutdown: 1},
 				c18Scenario{Stop: stop, Resume: resume, Accepts: [][]int{{0, 0}, {1}}, Closes: 2, Shutdown: -1, InnerErr: true},
+				c18Scenario{Stop: stop, Resume: resume, Accepts: [][]int{{0, 0}, {1}}, Closes: 1, Shutdown: -1, Racer: true},
 			)
 			if thorough {
 				out = append(out,
